@@ -714,19 +714,28 @@ impl ZiPatch {
             let base_files = crate::patch::recurse(base_directory);
             let new_files = crate::patch::recurse(new_directory);
 
-            // A set of files not present in base, but in new (aka added files)
+            // A set of files not present in base (or present with different contents), but in new (aka added files)
             let added_files: Vec<&PathBuf> = new_files
                 .iter()
                 .filter(|item| {
                     let metadata = fs::metadata(item).unwrap();
-                    !base_files.contains(item) && metadata.len() > 0 // TODO: we filter out zero byte files here, but does SqEx do that?
+                    // the two listings have different roots, so compare by relative path
+                    let base_item =
+                        Path::new(base_directory).join(item.strip_prefix(new_directory).unwrap());
+                    let unchanged =
+                        base_files.contains(&base_item) && read(&base_item).ok() == read(item).ok();
+                    !unchanged && metadata.len() > 0 // TODO: we filter out zero byte files here, but does SqEx do that?
                 })
                 .collect();
 
             // A set of files not present in the new directory, that used to be in base (aka removedf iles)
             let removed_files: Vec<&PathBuf> = base_files
                 .iter()
-                .filter(|item| !new_files.contains(item))
+                .filter(|item| {
+                    let new_item =
+                        Path::new(new_directory).join(item.strip_prefix(base_directory).unwrap());
+                    !new_files.contains(&new_item)
+                })
                 .collect();
 
             // Process added files
